@@ -697,7 +697,7 @@ def gen_tseq(rng, nt, length):
 
 
 def parse_state(tokens, nt):
-    """-> (heaps: list of (count,np,armed,min0,min1), timers: list of tuples(armed ident tg dl itv pending e0 e1 cfg))"""
+    """-> (heaps: list of (count,np,armed,min0,min1), timers: list of tuples(armed ident tg dl itv pending e0 e1 cfg); the 10th column (registered) is compared, not judged)"""
     tokens = tokens[1:]      # dirty bit
     heaps = [tuple(tokens[5 * i:5 * i + 5]) for i in range(3)]
     rest = tokens[15:]
@@ -744,7 +744,7 @@ def impl_line_to_list(line, nt):
         tt = [int(x) for x in ts.split()]
         flat = list(ht)
         for i in range(nt):
-            flat += tt[10 * i:10 * i + 9]     # drop the reference count column
+            flat += tt[11 * i:11 * i + 10]     # drop the reference count column
         return out + flat
     return out + [int(x) for x in state.split()]
 
